@@ -651,7 +651,11 @@ def gen_c01(tier, seed):
             for k in (50, 100, 250, 1000, 4000):
                 for nv in ('blank', 'saved', 'blank'):
                     combos += [(v, k, nv)] * (3 if v == 2 else 1)
-    for (v, k, nv) in combos:
+    # firmware-saved NVRAM with each valid host-speed option (offset 2: 0..5; 5 = 300 baud, where a character takes
+    # longer than the 20 ms key spacing), and a full window of line feeds (scrolling) before the typing starts
+    extra = [(2, 1000, 'opt5', 0), (2, 1000, 'blank', 130)] if tier == 'quick' else \
+            [(2, k, 'opt%d' % o, 0) for o in range(6) for k in (250, 1000)] + [(v, k, 'blank', 130) for v in (1, 2) for k in (250, 1000, 4000)]
+    for (v, k, nv, nlf) in [(a, b, c, 0) for (a, b, c) in combos] + extra:
         t20 = max(1, 20000000 // k)          # steps per 20 ms of emulated time
         maxboot = 0x8000000
         ops = []
@@ -661,8 +665,12 @@ def gen_c01(tier, seed):
         settle = 'run:%x' % (1500000000 // k)
         if nv == 'saved':
             ops += ['rs:%x' % v, 'k:%x' % k, 'bt:%x' % maxboot, settle, 'dk', 'nsv', 'rs:%x' % v, 'nrs']
+        elif nv.startswith('opt'):
+            ops += ['rs:%x' % v, 'k:%x' % k, 'bt:%x' % maxboot, settle, 'dk', 'nsv', 'nsp:2:%x' % int(nv[3:]), 'rs:%x' % v, 'nrs']
         ops += ['rs:%x' % v, 'k:%x' % k, 'bt:%x' % maxboot, settle, 'dk', 'vr', 'vd']
-        keys = [r.choice(list(range(0x20, 0x7f))) for _ in range(r.randrange(5, 12))]
+        for _ in range(nlf):
+            ops += ['qa:a', 'run:%x' % max(1, t20 // 4)]
+        keys = [r.choice(list(range(0x20, 0x7f))) for _ in range(r.randrange(5, 12) if not nv.startswith('opt') else 12)]
         for kc in keys:
             ops += ['qb:%x' % kc]
             pause = t20 * r.choice([1, 1, 2, 3])
@@ -672,7 +680,7 @@ def gen_c01(tier, seed):
                 ops += ['run:%x' % cut, r.choice(['mm:%x:%x' % (r.randrange(1024), r.randrange(1024)), 'md:%x' % r.randrange(3), 'mu:%x' % r.randrange(3)]), 'run:%x' % (pause - cut)]
             else:
                 ops += ['run:%x' % pause]
-        ops += ['run:%x' % (t20 * 3), 'da', 'vr', 'vd']
+        ops += ['run:%x' % (t20 * (3 if not nv.startswith('opt') else 30)), 'da', 'vr', 'vd']
         chars = [r.choice(list(range(0x21, 0x7f))) for _ in range(r.randrange(2, 6))]
         for ch in chars:
             ops += ['qa:%x' % ch, 'run:%x' % (t20 * 2)]
